@@ -45,13 +45,51 @@ def run_seed(sid, props):
     return sid, res
 
 
+def run_benign(name, props):
+    """apply a behaviour-preserving refactor to a scratch copy; every listed check must stay silent"""
+    bd = os.path.join(VERIF, "selftest", "benign", name)
+    scratch = tempfile.mkdtemp(prefix="verif-benign-", dir="/tmp")
+    repo = os.path.join(scratch, "repo")
+    res = {}
+    try:
+        subprocess.run(["rsync", "-a", "--exclude", "target", "--exclude", ".git", "/repo/", repo + "/"], check=True)
+        r = subprocess.run("patch -p0 -s < %s" % bd, shell=True, cwd=repo, stdout=subprocess.PIPE, stderr=subprocess.STDOUT, text=True)
+        if r.returncode != 0:
+            return name, {"error": "patch does not apply: " + r.stdout[-300:]}
+        env = dict(os.environ, VERIF_CACHE_DIR=os.path.join(scratch, "cache"), CARGO_NET_OFFLINE="true")
+        for p in props:
+            r = subprocess.run([os.path.join(VERIF, "check"), p, "--repo", repo, "--no-evidence"], cwd=VERIF, env=env,
+                               stdout=subprocess.PIPE, stderr=subprocess.STDOUT, text=True)
+            lines = r.stdout.splitlines()
+            first = ""
+            for i, l in enumerate(lines):
+                if l.startswith("VIOLATION"):
+                    first = (lines[i + 1].strip() if i + 1 < len(lines) else "")[:400]
+                    break
+            res[p] = {"exit": r.returncode, "summary": lines[0] if lines else "", "first": first}
+    finally:
+        shutil.rmtree(scratch, ignore_errors=True)
+    return name, res
+
+
 def main():
     ap = argparse.ArgumentParser()
     ap.add_argument("--props", default="")
     ap.add_argument("--seeds", default="")
     ap.add_argument("--all-props", action="store_true", help="run every check against every seed")
     ap.add_argument("--jobs", type=int, default=8)
+    ap.add_argument("--benign", action="store_true", help="run every check on the behaviour-preserving refactors (must stay silent)")
     a = ap.parse_args()
+    if a.benign:
+        bad = 0
+        for name in sorted(f for f in os.listdir(os.path.join(VERIF, "selftest", "benign")) if f.endswith(".diff")):
+            _n, res = run_benign(name, a.props.split(",") if a.props else ALL)
+            for p, v in sorted(res.items()) if isinstance(res, dict) else []:
+                if isinstance(v, dict) and v.get("exit") != 0:
+                    bad += 1
+                    print("FALSE ALARM", name, p, v.get("first"))
+            print(name, {p: (v.get("exit") if isinstance(v, dict) else v) for p, v in res.items()})
+        sys.exit(1 if bad else 0)
     seeds = sorted(d for d in os.listdir(os.path.join(VERIF, "seeded")) if os.path.isdir(os.path.join(VERIF, "seeded", d)))
     if a.seeds:
         seeds = [s for s in seeds if s in a.seeds.split(",")]
